@@ -94,9 +94,9 @@ type Step struct {
 	ReadAfter  string `json:"readAfter,omitempty"`
 	// StallRead: the caller reads the answer's headers and then stops reading (a process that stalls while it is being
 	// sent something large): its socket has a small receive buffer, the call ends when the process is killed
-	StallRead  bool   `json:"stallRead,omitempty"`
-	SlowBody   string `json:"slowBody,omitempty"` // latch: the request body is uploaded in two parts, the second after this latch
-	Quiet      bool   `json:"quiet,omitempty"`    // await: a timeout is expected and not worth a note
+	StallRead bool   `json:"stallRead,omitempty"`
+	SlowBody  string `json:"slowBody,omitempty"` // latch: the request body is uploaded in two parts, the second after this latch ("cut" / "cutchunked": no second part, the upload is broken off)
+	Quiet     bool   `json:"quiet,omitempty"`    // await: a timeout is expected and not worth a note
 }
 
 type HookPlan struct {
